@@ -35,7 +35,7 @@ def determinism(props, n_seeds=200, tier='quick'):
                     out = os.path.join(td, f'd_{hs}_{procs}.json')
                     env = dict(os.environ, PYTHONHASHSEED=hs, VERIF_SEED='7', VERIF_OUT=td)
                     p = subprocess.run([sys.executable, os.path.join(VERIF, 'run_check.py'), '--digests', out,
-                                        prop, tier, '--seeds', str(n_seeds), '--procs', procs],
+                                        prop, tier, '--seeds', str(n_seeds), '--procs', procs, '--wall', '3000'],
                                        env=env, capture_output=True, text=True, cwd=VERIF, timeout=1800)
                     if p.returncode != 0 or not os.path.exists(out):
                         print(f'variant failed property={prop} hashseed={hs} procs={procs}: {p.stdout[-500:]} {p.stderr[-500:]}')
@@ -45,7 +45,9 @@ def determinism(props, n_seeds=200, tier='quick'):
         ref_key = ('0', '16')
         ref = variants.get(ref_key, {})
         for key, d in variants.items():
-            diff = [s for s in ref if d.get(s) != ref[s]]
+            diff = [s for s in ref if s in d and d[s] != ref[s]]
+            if len(d) != len(ref):
+                print(f'INCOMPLETE property={prop} variant={key}: {len(d)} of {len(ref)} seeds ran (wall limit?)')
             if diff or len(d) != len(ref):
                 print(f'NONDETERMINISTIC property={prop} variant={key} vs {ref_key}: {len(diff)} seeds differ, e.g. {diff[:5]}')
                 bad += 1
